@@ -16,7 +16,8 @@ PLANS = {
     # of TLC time and is sampled), arith 2 = 101 k, strings 2 = 243 k, math 2 = 184 k; misc 2 and temporal 2 exceed 1.4 M and are
     # sampled by simulation instead
     "thorough": [("logic", 2), ("arith", 2), ("strings", 2), ("misc", 1), ("math", 2), ("temporal", 1), ("long", 1),
-                 ("logic", 8, 6000), ("logic", 4, 12000), ("arith", 6, 3000), ("strings", 5, 3000), ("misc", 4, 6000), ("temporal", 4, 6000)],
+                 ("logic", 8, 6000), ("logic", 4, 12000), ("logic", 6, 8000), ("arith", 6, 3000), ("strings", 5, 3000), ("misc", 4, 6000),
+                 ("temporal", 4, 6000), ("math", 4, 3000)],
     # the ORM round trip costs 2-5 ms per query: smaller exhaustive bounds, same simulated depth
     "quick-orm": [("logic", 1), ("arith", 1), ("strings", 1), ("misc", 1), ("math", 1), ("temporal", 1), ("long", 0), ("logic", 7, 700), ("arith", 5, 150), ("strings", 4, 150)],
     "thorough-orm": [("logic", 2), ("arith", 1), ("strings", 1), ("misc", 1), ("math", 1), ("temporal", 1), ("long", 1),
